@@ -14,7 +14,7 @@ from sa.term import Rat
 from sa.units import Unit
 from spec.formulas import S, m_n
 
-from .common import eq_term, events, history_free, returns, show, term_of
+from .common import eq_term, events, history_free, kernel_histories, returns, show, term_of
 
 CASES = {
     # kernel: (given energy, leg of the fixed energy, other leg, sign: +1 => Efixed - E(other))
@@ -151,8 +151,10 @@ def run(tier: str) -> Run:
             continue
         r7.check(worst is None, name, (worst or {}).get('where') or loc(fi), {'unit_assignments': n_runs, 'values_bounded': n_values, 'worst': worst}, key=f'{name}:f32-range')
 
-    r6 = run.rule('R6', 'kernels write to no module-level state and hand out no memoised object', 2)
-    history_free(repo, [repo.func('conversion.tof', n) for n in CASES], r6)
+    r6 = run.rule('R6', 'results do not depend on call history: after another call (other units, other precision, the other geometry) a kernel '
+                        'returns what it returns in a fresh interpreter (two-call histories interpreted in one world); no memoised object is handed out', 2)
+    kfis = [repo.func('conversion.tof', n) for n in CASES]
+    history_free(repo, kfis, r6, histories=kernel_histories(repo, kfis))
 
     # R5 graph factories
     for fac, kern in (('direct_inelastic', 'energy_transfer_direct_from_tof'),
